@@ -4,15 +4,15 @@ namespace JsonVerif
 
 mutual
 def preV : JValue → List Frag
-  | .array xs => .value (.array xs) :: preL xs
-  | .object es => .value (.object es) :: preM es
+  | .array xs => .value (.array xs) :: poL xs
+  | .object es => .value (.object es) :: poM es
   | v => [.value v]
-def preL : List JValue → List Frag
+def poL : List JValue → List Frag
   | [] => []
-  | x :: xs => preV x ++ preL xs
-def preM : List (Key × JValue) → List Frag
+  | x :: xs => preV x ++ poL xs
+def poM : List (Key × JValue) → List Frag
   | [] => []
-  | (k, v) :: es => (.entry k v :: .key k :: preV v) ++ preM es
+  | (k, v) :: es => (.entry k v :: .key k :: preV v) ++ poM es
 end
 
 -- the volumes a well-formed code map carries (C05): number of fragments of each subtree, pre-order
